@@ -2960,6 +2960,9 @@ class ContractionTree:
                 "can_dot",
                 "tensordot_axes",
                 "tensordot_perm",
+                # n.b. this is called whenever the tree has been restructured,
+                # a node's centrality derives from the subtree below it
+                "centrality",
             ):
                 self.info[node].pop(k, None)
 
